@@ -218,6 +218,12 @@ func propC11(r *Run) {
 		slow := []int{1, 2, 5, 15}[r.Choose("dispatcher-slowness", 4)]
 		w.runLoop(loopOpts{maxSteps: 1200, wClient: slow * 3, wLoop: 4, wClock: 1})
 		if wedge := w.drain(nil); wedge != "" {
+			for _, fe := range []string{"sasl", "ldap", "basic", "api"} {
+				if strings.Contains(wedge, "["+fe+"]") && !strings.Contains(wedge, "is NOT back at its select") {
+					// the dispatcher is fine but a connection never got its own answer
+					r.Fail("frontend/connection-never-answered/"+fe, "a concurrent %s connection did not receive an answer of its own: %s", fe, wedge)
+				}
+			}
 			r.FailOther("C10", wedgeSignature(wedge), "%s", wedge)
 			return
 		}
